@@ -1,5 +1,5 @@
 (* Property C16 - print-then-parse round trip: precedence, grouping, layout and literal fidelity. RF (AtomsSel.v) is the rendering relation: every text a printer may emit for a tree; c16_final_parse says the parser (declarative semantics of the table regenerated from grammar.go, through engine completeness) reads every such text back as the tree. Statements only. *)
-From Coq Require Import List String ZArith NArith Bool. From Bexpr Require Import Base Strconv Ast Unicode Peg Typing Actions GoGrammar Sem Calc Calc2 Lex Lex2 Lex3 Skel Top C10 C16 Glue Spell Ptr StrLit Values Num NumLit Sels Coll Bind2 AtomsIn AtomsOp AtomsNotIn AtomsSel AtomsLeft AtomsBare Fidelity Fid4 Univ Eval EndToEnd. Import ListNotations.
+From Coq Require Import List String ZArith NArith Bool. From Bexpr Require Import Base Strconv Ast Unicode Peg Typing Actions GoGrammar Sem Calc Calc2 Lex Lex2 Lex3 Skel Top C10 C16 Glue Spell Ptr StrLit Values Num NumLit Sels KwMiss Coll Bind2 C16Full AtomsIn AtomsOp AtomsNotIn AtomsSel AtomsLeft AtomsBare Fidelity Fid4 Univ Eval EndToEnd. Import ListNotations.
 
 Theorem c16_quoted_literal :
   forall s : string, unquote (quote_double s) = Some s.
@@ -68,7 +68,7 @@ Theorem c16_literal_fidelity_all :
   forall (c0 : Ascii.ascii) (rest s : string),
   class_match cls_id_head (b2z c0) = true ->
   tail_ok rest ->
-  b2z c0 <> 110 ->
+  String c0 rest <> "not" ->
   exists f0 : nat,
     forall f : nat,
     (f0 <= f)%nat ->
@@ -171,7 +171,7 @@ Theorem bare_left_values_exist :
   class_match cls_id_head (crune c) = true ->
   id_tail_ok cs ->
   Forall seg_ok segs ->
-  crune c <> 110 ->
+  map crune (c :: cs) <> [110; 111; 116]%Z \/ segs <> [] ->
   forall (l : oplay) (sr : selr) (neg : bool),
   exists a : batom,
     b_txt a = ((c :: cs ++ segs_cells segs []) ++ m_optext neg l (s_txt sr ++ []))%list /\
@@ -194,4 +194,44 @@ Theorem dotted_left_of_not_in :
     Accepted (VExpr (EMatch {| stype := SelBexpr; spath := ["m"; "k"] |} OpNotIn (Some "a.b"))) n.
 Proof. exact AtomsBare.dotted_left_of_not_in. Qed.
 Print Assumptions dotted_left_of_not_in.
+
+
+
+(* No condition on first runes: a name is a selector at the head of an expression unless it IS the keyword `not`, and the selector
+   of a quantifier unless its name alone is one of `contains`, `not`, `matches`, `is`, `in` (KwMiss.v: a literal fails wherever the
+   text departs from it, a keyword rule fails on everything that is not the keyword followed by a blank). Instances: `notes == "x"`
+   and the header `any items as x {`. *)
+Theorem name_selector :
+  exists f0 : nat,
+    forall f : nat,
+    (f0 <= f)%nat ->
+    exists n : N,
+      parse go_grammar None action_sem pred_sem f ("notes == " ++ quote_double "x") =
+      Accepted (VExpr (EMatch {| stype := SelBexpr; spath := ["notes"] |} OpEq (Some "x"))) n.
+Proof. exact Fid4.name_selector. Qed.
+Print Assumptions name_selector.
+
+Theorem hd_items_text :
+  h_txt hd_items = utf8_cells "any items as x {".
+Proof. exact C16Full.hd_items_text. Qed.
+Print Assumptions hd_items_text.
+
+Theorem ident_vs_kw :
+  forall kw : list Z,
+  Forall id_rune kw ->
+  forall cs R : list cell,
+  Forall (fun c : cell => id_rune (crune c)) cs ->
+  id_stop R -> all_valid (cs ++ R) -> kw_miss kw (cs ++ R) \/ map crune cs = kw /\ (exists (x : cell) (r : list cell), R = x :: r /\ is_ws x).
+Proof. exact KwMiss.ident_vs_kw. Qed.
+Print Assumptions ident_vs_kw.
+
+Theorem mixed_vs_kw :
+  forall (kw : list Z) (c : cell) (cs : list cell) (segs : list seg) (K : list cell),
+  Forall id_rune kw ->
+  class_match cls_id_head (crune c) = true ->
+  id_tail_ok cs ->
+  Forall seg_ok segs ->
+  seg_stop K -> map crune (c :: cs) <> kw \/ segs <> [] -> all_valid (c :: cs ++ segs_cells segs K) -> kw_miss kw (c :: cs ++ segs_cells segs K).
+Proof. exact Sels.mixed_vs_kw. Qed.
+Print Assumptions mixed_vs_kw.
 
